@@ -1,0 +1,7 @@
+//go:build !verif
+// +build !verif
+
+package argmapper
+
+// verifHook is a no-op unless built with the "verif" tag.
+func verifHook(ev string, f *Func) {}
